@@ -8,7 +8,7 @@ import (
 
 var keywords = map[string]bool{"if": true, "else": true, "while": true, "for": true, "return": true, "yield": true, "true": true, "false": true}
 
-var synNames = []string{"a", "b", "c", "x", "y", "n", "f", "g", "foo", "it", "acc", "ifx", "elsey", "truex", "forr", "whiley", "t", "write", "toa", "fromto", "elems"}
+var synNames = []string{"a", "b", "c", "x", "y", "n", "f", "g", "foo", "it", "acc", "ifx", "elsey", "truex", "forr", "whiley", "t", "write", "toa", "fromto", "elems", "read", "aton", "indices"}
 
 // SynName draws a variable name (never a keyword; sometimes keyword-prefixed).
 func SynName(r *core.Rng) string { return synNames[r.Intn(len(synNames))] }
